@@ -313,6 +313,22 @@ func opBigStream(pi *pkgInfo, c *Cmd, m0 int) {
 			m++
 			continue
 		}
+		{
+			// the byte decoder on the same bytes
+			begin(c.Cid, m, &Event{Ev: "bigrec", API: "UnmarshalBebop", K: ip(n), Style: "byte slice", Rec: ip(0)})
+			e := &Event{Ev: "bigrec", Cid: c.Cid, M: m, API: "UnmarshalBebop", K: ip(n), Style: "byte slice", Rec: ip(0), N: ip(len(enc)), Consumed: ip(len(enc))}
+			got := newRecord(pi.Pid, c.Root)
+			e.Res, e.Msg, e.Big, e.Alloc = call(len(enc), func() error { return got.UnmarshalBebop(enc) })
+			same := false
+			if e.Res == "nil" {
+				var back []byte
+				r2, _, _, _ := call(4*n+1024, func() error { back = got.MarshalBebop(); return nil })
+				same = r2 == "nil" && bytes.Equal(sortedBytes(back), sortedBytes(enc))
+			}
+			e.TailOK = bp(same)
+			emit(e)
+			m++
+		}
 		data := append(append(append([]byte{}, enc...), enc...), trailer...)
 		for _, style := range []string{"as much as asked", "1000 bytes per Read", "bytes.Reader", "last bytes with io.EOF"} {
 			var r io.Reader
